@@ -9,7 +9,10 @@ must make the import raise.  Runtime contract (icontract) on the real _DBCreator
 Case kinds: "collide" (an import in which equal id values are expected to collide under "strategy"), "import" (optionally
 with "spec2" = the id_spec of the update() calls, "special"/"absent" = special-looking attribute values, optionally with "keys" = non-default [gtf_transcript_key, gtf_gene_key] under id_spec None, or with
 "family"/"probe" = confusable spellings of the stored ids) and "stale" (Feature handles fetched before delete / update /
-replace, and handles from another database, looked up again; see execute_stale).
+replace, and handles from another database, looked up again; see execute_stale), "autoclash" (an explicit id that spells
+the '<base>_<k>' key of a later / earlier auto-numbered feature: the two collide under "strategy"; see execute_autoclash) and
+"dbcopy" (create_db(data=<FeatureDB built under "spec1" with history "ops">, id_spec="spec"), optionally followed by an
+update() of the copy with "later"; see execute_dbcopy).
 """
 import collections
 import os
@@ -51,7 +54,16 @@ RULE = ("files of n in {1..6,8,12,20} lines (GFF3 and GTF) whose features have /
         "string / list / dict / callable specs, with and without the disable_infer_* flags; (tuples) dict id_spec whose "
         "per-featuretype entries are tuples of names - all of them, or tuples beside lists and strings, one-element tuples, in plain "
         "dicts, OrderedDict and a dict subclass - and a whole id_spec given as a tuple (also ending in a ':column:'), on features "
-        "that have / lack / multiply define the listed attributes. non-trivial = >= 2 different derivation branches taken in "
+        "that have / lack / multiply define the listed attributes; (autoclash) files in which a feature's explicit id (attribute value, "
+        "gene_id / transcript_id under the GTF default, a callable's string) reads exactly '<base>_<k>' where the k-th feature of that base "
+        "that has to be auto-numbered ('<featuretype>_<n>', or X_n of a callable returning 'autoincrement:X') gets that very key by the rule, "
+        "the explicit one placed before (80%) or after it, one or two such pairs per file, under none / str / list / dict / partial-dict / "
+        "callable specs x all five merge strategies x {one create_db, explicit id already stored and the anonymous features arriving "
+        "through update()}; (dbcopy) create_db(data=<FeatureDB>, id_spec=S) where the source database was built under ANOTHER id_spec "
+        "(Name, 'nokey', ':start:' / ':end:', list, dict, six callables, or the default) and / or had features deleted (mostly ones it "
+        "auto-numbered: holes) and / or features added by update() before the copy, S = None / str / ':column:' / list / dict (also "
+        "OrderedDict, subclass) / callable, copy into :memory: or a file, source :memory: / file / reopened file, optionally followed by "
+        "an update() of the copy with mostly anonymous features. non-trivial = >= 2 different derivation branches taken in "
         "one file (or a rejected multi-valued id), or a handle whose position holds another id; distinct = distinct "
         "(format, spec, path, file content, script)")
 REQUIRED = ["imports", "keys compared with the reference derivation", "lookups db[key]", "lookups db[feature]",
@@ -94,7 +106,28 @@ REQUIRED = ["imports", "keys compared with the reference derivation", "lookups d
             "tuple entries: keys taken from the first listed attribute that is present",
             "tuple entries: keys taken from the 2nd or later name of a tuple (earlier ones absent)",
             "tuple entries: no listed attribute present -> '<featuretype>_<n>'",
-            "tuple entries: multi-valued id attribute named in a tuple rejected"]
+            "tuple entries: multi-valued id attribute named in a tuple rejected",
+            # explicit ids that spell an auto-numbered key
+            "autoclash: explicit id placed BEFORE the auto-numbered feature it collides with",
+            "autoclash: explicit id arriving AFTER the auto-numbered feature it collides with",
+            "autoclash: 'error' refuses the import (create_db)",
+            "autoclash: 'error' refuses the import (update(), explicit id already stored)",
+            "autoclash: create_unique decided a collision between an explicit id and an auto-numbered key",
+            "autoclash: warning decided a collision between an explicit id and an auto-numbered key",
+            "autoclash: replace decided a collision between an explicit id and an auto-numbered key",
+            "autoclash: merge files the newcomer under a fresh '<key>_n'",
+            "autoclash: update() variant, explicit id already stored, anonymous features reach its number",
+            "autoclash: auto-numbered keys AFTER a collision compared (numbering went on without skipping)",
+            "autoclash: the colliding key was made by a callable's 'autoincrement:X'",
+            "autoclash: keys compared", "autoclash: absent keys probed (next number of each counter, '<key>_n' of colliding keys)",
+            # FeatureDB as data
+            "dbcopy: create_db(data=<FeatureDB>) imports", "dbcopy: keys compared",
+            "dbcopy: features whose key by the new id_spec differs from their key in the source database",
+            "dbcopy: '<featuretype>_<n>' keys of features that were stored under another key in the source database",
+            "dbcopy: features deleted from the source before the copy",
+            "dbcopy: update() of the copy, numbering goes on from the copy's own count",
+            "dbcopy: auto-numbered keys handed out by update() of the copy",
+            "dbcopy: copies completed with every key as the new id_spec dictates"]
 REQUIRED_CLASSES = ["fmt=gff3", "fmt=gtf"] + ["form=" + f for f in G.FORMS] + ["form=confusable"] + [
     "branch=attribute#0", "branch=attribute#1", "branch=column", "branch=fallback", "branch=dict:no entry->fallback",
     "branch=dict:entry absent->fallback", "branch=callable:None->fallback", "branch=callable:autoincrement",
@@ -107,7 +140,11 @@ REQUIRED_CLASSES = ["fmt=gff3", "fmt=gtf"] + ["form=" + f for f in G.FORMS] + ["
     "successive: first import auto-numbered nothing", "successive: first import handed out counters"] + [
     "successive: strategy=" + st for st in G.STRATEGIES] + [
     "force_gff: GTF-looking input", "force_gff: GFF3 input", "force_gff: id_spec None", "force_gff: explicit id_spec",
-    "form=dict-tuple", "form=tuple", "tuple entries: tuples beside lists / strings in one dict", "tuple entries: every entry a tuple"]
+    "form=dict-tuple", "form=tuple", "tuple entries: tuples beside lists / strings in one dict", "tuple entries: every entry a tuple"] + [
+    "autoclash: strategy=" + st for st in G.AUTOCLASH_STRATEGIES] + ["autoclash: create_db", "autoclash: create_db + update()"] + [
+    "autoclash: form=" + f for f in G.AUTOCLASH_FORMS] + ["dbcopy: source history=" + h for h in sorted(set(G.DBCOPY_HISTORIES))] + [
+    "dbcopy: source id_spec form=" + f for f in sorted(set(G.DBCOPY_SRC_FORMS))] + ["dbcopy: form=" + f for f in sorted(set(G.DBCOPY_FORMS))] + [
+    "dbcopy: branch=fallback", "dbcopy: branch=attribute#0", "dbcopy: branch=dict:no entry->fallback", "dbcopy: branch=callable:None->fallback"]
 ASSUMPTIONS = [
     "inputs on which the derived keys collide are not judged (the key would then be altered by the merge strategy, "
     "which is C05's subject); they are skipped and counted",
@@ -145,6 +182,16 @@ ASSUMPTIONS = [
     "force_gtf=True) raises TypeError 'unhandled kwarg'): GFF3-looking input forced through the GTF importer is not generated",
     "a per-featuretype entry of a dict id_spec (or the whole id_spec) given as a tuple of names means what the list of the same "
     "names means (documented 'list or tuple'): first listed attribute that is present, a listed multi-valued one rejected",
+    "(autoclash) n counts 1,2,... per base in input order whatever ids are spelled out in the input or already stored, so an explicit id "
+    "'<base>_<k>' and the k-th auto-numbered feature of that base have EQUAL keys; keys are unique, hence they collide as the statement of "
+    "C05 says: 'error' -> the import raises (any exception; whether it names the duplicate is only counted), 'warning' -> first kept, "
+    "'replace' -> last kept, 'create_unique' -> later one under '<key>_1' (skipped when that name is another feature's key), 'merge' -> the "
+    "two lines differ in start/end, so the newcomer is filed under '<key>_n' for any n.  What an update() that raised leaves behind is not judged",
+    "(dbcopy) a FeatureDB given as data is a sequence of features like any other input: its features arrive in the order the source iterates "
+    "them (obtained by listing source.all_features() right before the copy - an assumption, not predicted), a feature of the source is "
+    "identified with its input line by (start, end), and the key each had in the source plays no part; the copy's later update() counts on "
+    "from the copy's own numbers.  Building the source (create_db / delete / update) is not this class's subject: if it raises the case is "
+    "skipped and counted",
 ]
 QUICK_SHARDS = 4
 THOROUGH_SHARDS = 16
@@ -242,6 +289,10 @@ def execute(ctx, case):
 
     if case.get("kind") == "stale":
         return execute_stale(ctx, case)
+    if case.get("kind") == "autoclash":
+        return execute_autoclash(ctx, case)
+    if case.get("kind") == "dbcopy":
+        return execute_dbcopy(ctx, case)
     fmt, spec = case["fmt"], case["spec"]
     # the format actually used for the import: force_gff routes whatever the file looks like to the GFF importer
     ufmt = "gff3" if case.get("force") == "gff" else fmt
@@ -834,6 +885,339 @@ def execute_stale(ctx, case):
             ctx.violation(case, v)
 
 
+def _gtf_kw(case):
+    return dict(disable_infer_genes=True, disable_infer_transcripts=True) if case["fmt"] == "gtf" else {}
+
+
+def _line_of(rec):
+    return (rec["seqid"], rec["featuretype"], rec["start"], rec["end"])
+
+
+def execute_autoclash(ctx, case):
+    """
+    An explicit id (attribute value / callable return value) spells the key '<base>_<k>' that the k-th auto-numbered
+    feature of that base gets by the rule (n counts 1,2,... in input order, whatever ids are spelled out in the input or
+    already stored).  Keys are unique, so the two collide and the merge strategy decides (statement of C05): 'error' ->
+    the import raises; 'warning' -> first kept; 'replace' -> last kept; 'create_unique' -> later one under '<key>_1';
+    'merge' (other columns differ) -> newcomer under a fresh '<key>_n'.  Every other line has the key id_spec dictates.
+    """
+    import re
+
+    import gffutils
+
+    fmt, spec, strategy = case["fmt"], case["spec"], case["strategy"]
+    batches = case["batches"]
+    flat = [rec for b in batches for rec in b]
+    ends, deriver, keys, branches = [], None, [], []
+    for b in batches:
+        r = MC.derive_all(spec, fmt, b, deriver)
+        deriver = r["deriver"]
+        if r["outcome"] != "keys":
+            ctx.skip("autoclash: statement silent / rejected input (not this class's subject)")
+            return None
+        keys += r["keys"]
+        branches += r["branches"]
+        ends.append(len(keys))
+    try:
+        whole = MC.resolve(keys, strategy)
+    except MC.Silent as e:
+        ctx.skip("statement silent: %s" % e)
+        return None
+    if not whole["collisions"]:
+        ctx.skip("autoclash: no explicit id equals an auto-numbered key")
+        return None
+    abort_batch = None
+    if whole["abort"] is not None:
+        abort_batch = min(bi for bi, e in enumerate(ends) if whole["abort"] < e)
+    info = {"explicit_first": 0, "auto_first": 0, "strategy": strategy, "update": False, "callable_auto": False}
+    for k, first, later in whole["collisions"]:
+        if MC.is_auto(branches[later]) and not MC.is_auto(branches[first]):
+            info["explicit_first"] += 1
+        elif MC.is_auto(branches[first]) and not MC.is_auto(branches[later]):
+            info["auto_first"] += 1
+        if "callable:autoincrement" in (branches[first], branches[later]):
+            info["callable_auto"] = True
+        if len(batches) > 1 and first < ends[0] <= later:
+            info["update"] = True
+    kw = dict(_gtf_kw(case))
+    if spec["form"] != "none":
+        kw["id_spec"] = real_spec(spec)
+    dbfn = ctx.tmp(".db") if case["db"] == "file" else ":memory:"
+    made = []
+    db = None
+    text_all = text_of(flat, fmt)
+
+    def verify(upto, what, final):
+        res = MC.resolve(keys[:upto], strategy)
+        rows = dbdump.dump_db(db)["features"]
+        ids = [f["id"] for f in rows]
+        byid = dict((f["id"], f) for f in rows)
+        detail = {"stage": what, "strategy": strategy, "keys by id_spec (input order)": keys[:upto], "stored ids": ids, "spec": spec, "text": text_all}
+        if len(set(ids)) != len(ids):
+            ctx.violation(case, dict(detail, why="two features under one key"))
+            return False
+        expect = dict(res["stored"])
+        extra = set(ids) - set(expect)
+        for k, i in res["loose"]:
+            pat = re.compile(re.escape(k) + r"_\d+\Z")
+            hit = [e for e in sorted(extra) if pat.match(e) and (byid[e]["seqid"], byid[e]["featuretype"], str(byid[e]["start"]), str(byid[e]["end"])) == _line_of(flat[i])]
+            if not hit:
+                ctx.violation(case, dict(detail, why="merge: the newcomer whose key %r is taken (other columns differ) is not filed under a fresh '<key>_n'" % k, line=i))
+                return False
+            extra.discard(hit[0])
+            expect[hit[0]] = i
+            ctx.mon("autoclash: merge files the newcomer under a fresh '<key>_n'")
+        missing = set(res["stored"]) - set(ids)
+        if missing or extra:
+            ctx.violation(case, dict(detail, why="the stored keys are not those id_spec dictates ('<base>_<n>' counting 1,2,... in input order; an explicit id "
+                                                 "equal to an auto-numbered key collides and merge_strategy=%r decides)" % strategy,
+                                     missing=sorted(missing), unexpected=sorted(extra), expected=sorted(res["stored"])))
+            return False
+        first_col = min(l for _, _, l in res["collisions"]) if res["collisions"] else None
+        for k, i in sorted(expect.items(), key=lambda x: x[1]):
+            rec, row = flat[i], byid[k]
+            ctx.mon("autoclash: keys compared")
+            if first_col is not None and i > first_col and MC.is_auto(branches[i]):
+                ctx.mon("autoclash: auto-numbered keys AFTER a collision compared (numbering went on without skipping)")
+            if (row["seqid"], row["featuretype"], str(row["start"]), str(row["end"])) != _line_of(rec):
+                ctx.violation(case, dict(detail, why="the feature stored under %r is not the input line that id_spec and merge_strategy=%r put there" % (k, strategy),
+                                         expected_line=MD.render_line(rec, point(fmt)), row=row))
+                return False
+            for how, arg in (("db[key]", k),):
+                ctx.mon("lookups " + how)
+                try:
+                    g = db[arg]
+                except Exception as ex:
+                    ctx.violation(case, dict(detail, why="%s raised %r for a stored key" % (how, ex), key=k))
+                    return False
+                gattrs = dict((a, list(g.attributes[a])) for a in g.attributes.keys())
+                if g.id != k or (g.seqid, g.featuretype, str(g.start), str(g.end)) != _line_of(rec) or gattrs != MC.attrs_of(rec):
+                    ctx.violation(case, dict(detail, why="%s does not return the input line stored under that key" % how, key=k, got=str(g),
+                                             line=MD.render_line(rec, point(fmt))))
+                    return False
+        if final:
+            # the counters never skipped: the number after the last one handed out (by the rule) names nothing
+            counters = {}
+            for k, b in zip(keys[:upto], branches[:upto]):
+                if MC.is_auto(b):
+                    base, n = k.rsplit("_", 1)
+                    counters[base] = max(counters.get(base, 0), int(n))
+            probes = ["%s_%d" % (base, n + 1) for base, n in sorted(counters.items())] + ["%s_0" % base for base in sorted(counters)]
+            probes += ["%s_%d" % (k, j) for k, _, _ in res["collisions"] for j in (1, 2)]
+            for pk in dict.fromkeys(probes):
+                if pk in expect:
+                    continue
+                ctx.mon("absent keys probed")
+                ctx.mon("autoclash: absent keys probed (next number of each counter, '<key>_n' of colliding keys)")
+                try:
+                    got = db[pk]
+                except gffutils.FeatureNotFoundError:
+                    continue
+                except Exception as ex:
+                    ctx.violation(case, dict(detail, why="absent key raises %s instead of FeatureNotFoundError" % type(ex).__name__, key=pk))
+                    return False
+                ctx.violation(case, dict(detail, why="absent key does not raise FeatureNotFoundError", key=pk, returned=str(got)))
+                return False
+        return True
+
+    try:
+        start = 0
+        for bi, b in enumerate(batches):
+            text = text_of(b, fmt)
+            if case["input"] == "path":
+                src = ctx.tmp(".gff" if fmt == "gff3" else ".gtf")
+                with open(src, "w", encoding="utf-8", newline="") as fh:
+                    fh.write(text)
+                made.append(src)
+                data, from_string = src, False
+            else:
+                data, from_string = text, True
+            try:
+                if bi == 0:
+                    db = gffutils.create_db(data, dbfn, from_string=from_string, merge_strategy=strategy, **kw)
+                    ctx.mon("imports")
+                else:
+                    if case.get("reopen_before_update") and dbfn != ":memory:":
+                        db.conn.close()
+                        db = gffutils.FeatureDB(dbfn)
+                    db.update(data, from_string=from_string, make_backup=False, merge_strategy=strategy, **kw)
+                    ctx.mon("update() imports")
+            except Exception as ex:
+                if abort_batch == bi:
+                    ctx.mon("autoclash: 'error' refuses the import")
+                    ctx.mon("autoclash: 'error' refuses the import (%s)" % ("create_db" if bi == 0 else "update(), explicit id already stored"
+                                                                            if info["update"] else "update()"))
+                    if "uplicate" in str(ex):
+                        ctx.mon("autoclash: the error names a duplicate")
+                    return info
+                ctx.violation(case, {"why": "%s raised %r although merge_strategy=%r does not refuse anything here" % (
+                    "create_db" if bi == 0 else "update", ex, strategy), "keys by id_spec": keys[start:ends[bi]], "text": text_all})
+                return None
+            if bi == 0 and db.dialect["fmt"] != fmt:
+                ctx.skip("harness: file not routed to the %s importer" % fmt)
+                return None
+            if abort_batch == bi:
+                stored = [f["id"] for f in dbdump.dump_db(db)["features"]]
+                k, first, later = whole["collisions"][0]
+                ctx.violation(case, {"why": "an explicit id equal to the auto-numbered key %r (line %d and line %d get the same key by id_spec) did not collide: "
+                                            "merge_strategy='error' did not refuse the import" % (k, first, later),
+                                     "keys by id_spec (input order)": keys[:ends[bi]], "stored ids": stored, "spec": spec, "text": text_all})
+                return None
+            if not verify(ends[bi], "after %s" % ("create_db" if bi == 0 else "update"), bi == len(batches) - 1):
+                return None
+            start = ends[bi]
+        ctx.mon("autoclash: imports completed, every stored key as id_spec and the merge strategy dictate")
+        ctx.mon("autoclash: %s decided a collision between an explicit id and an auto-numbered key" % strategy, len(whole["collisions"]))
+        if info["update"]:
+            ctx.mon("autoclash: update() variant, explicit id already stored, anonymous features reach its number")
+        return info
+    finally:
+        try:
+            if db is not None:
+                db.conn.close()
+        except Exception:
+            pass
+        for p in made + [dbfn]:
+            if p != ":memory:" and os.path.exists(p):
+                os.unlink(p)
+        for v in contracts.drain():
+            ctx.violation(case, v)
+
+
+def execute_dbcopy(ctx, case):
+    """
+    create_db(data=<FeatureDB>, id_spec=S): the features of an existing database are the input.  Each one's key in the new
+    database is fixed by S applied to the feature ('<featuretype>_<n>' counted 1,2,... in arrival order for those S cannot
+    name) - never by the key it has in the source (built under another id_spec, with holes after delete(), with additions).
+    Arrival order = the order the source iterates its features (listed before the copy).
+    """
+    import gffutils
+
+    fmt, spec1, spec = case["fmt"], case["spec1"], case["spec"]
+    gkw = _gtf_kw(case)
+    kw1 = dict(gkw)
+    if spec1["form"] != "none":
+        kw1["id_spec"] = real_spec(spec1)
+    kw = dict(gkw)
+    if spec["form"] != "none":
+        kw["id_spec"] = real_spec(spec)
+    srcfn = ctx.tmp(".db") if case["srcdb"] == "file" else ":memory:"
+    dbfn = ctx.tmp(".db") if case["db"] == "file" else ":memory:"
+    opened = []
+    every = list(case["base"]) + [rec for op in case["ops"] if op["op"] == "update" for rec in op["recs"]]
+    byline = dict(((rec["start"], rec["end"]), rec) for rec in every)
+    try:
+        # ---- the source database and its history
+        try:
+            src = gffutils.create_db(text_of(case["base"], fmt), srcfn, from_string=True, **kw1)
+            opened.append(src)
+            for op in case["ops"]:
+                if op["op"] == "delete":
+                    want = set(tuple(x) for x in op["lines"])
+                    for f in [f for f in src.all_features() if (str(f.start), str(f.end)) in want]:
+                        src.delete(f.id if op["as"] == "id" else f, make_backup=False)
+                        ctx.mon("dbcopy: features deleted from the source before the copy")
+                else:
+                    src.update(text_of(op["recs"], fmt), from_string=True, make_backup=False, **kw1)
+                    ctx.mon("update() imports")
+        except Exception as ex:
+            ctx.skip("dbcopy: building the source database raised %s (not this class's subject)" % type(ex).__name__)
+            return None
+        ctx.mon("imports")
+        if case["src_handle"] == "FeatureDB" and srcfn != ":memory:":
+            src = gffutils.FeatureDB(srcfn)
+            opened.append(src)
+        listing = list(src.all_features())
+        try:
+            order = [byline[(str(f.start), str(f.end))] for f in listing]
+        except KeyError:
+            ctx.skip("harness: a feature of the source database is not one of the input lines")
+            return None
+        srckeys = [f.id for f in listing]
+        srcauto = dbdump.dump_db(src)["autoincrements"]
+        r = MC.derive_all(spec, fmt, order)
+        if r["outcome"] == "silent":
+            ctx.skip("statement silent: " + r["why"].split("'")[0])
+            return None
+        if r["outcome"] == "keys" and len(set(r["keys"])) != len(order):
+            ctx.skip("derived keys collide (merge strategy decides: C05)")
+            return None
+        text = text_of(order, fmt)
+        detail = {"source id_spec": spec1, "history": case["history"], "keys in the source database": srckeys, "spec": spec,
+                  "features of the source in iteration order": text}
+        try:
+            new = gffutils.create_db(src, dbfn, **kw)
+            opened.append(new)
+        except Exception as ex:
+            if r["outcome"] == "reject":
+                ctx.mon("multi-valued id rejected")
+                ctx.mon("dbcopy: multi-valued id attribute reached by the new id_spec rejected")
+                return {"branches": r["branches"], "moved": 0}
+            ctx.violation(case, dict(detail, why="create_db(<FeatureDB>, id_spec=S) raised %r on features whose keys by S are all distinct" % (ex,),
+                                     expected=r["keys"]))
+            return None
+        ctx.mon("dbcopy: create_db(data=<FeatureDB>) imports")
+        if new.dialect["fmt"] != fmt:
+            ctx.skip("harness: copy not routed to the %s importer" % fmt)
+            return None
+        if r["outcome"] == "reject":
+            ctx.violation(case, dict(detail, why="multi-valued id attribute accepted instead of rejected (%s)" % r["why"],
+                                     stored=[f["id"] for f in dbdump.dump_db(new)["features"]][-8:]))
+            return None
+        moved = sum(1 for a, b in zip(srckeys, r["keys"]) if a != b)
+        renum = sum(1 for a, b, br in zip(srckeys, r["keys"], r["branches"]) if a != b and MC.is_auto(br))
+        ctx.mon("dbcopy: keys compared", len(order))
+        ctx.mon("dbcopy: features whose key by the new id_spec differs from their key in the source database", moved)
+        ctx.mon("dbcopy: '<featuretype>_<n>' keys of features that were stored under another key in the source database", renum)
+        ccase = dict(case, spec=spec)
+        if not compare(ctx, ccase, new, list(r["keys"]), order, r["branches"], r["deriver"], "after create_db(<FeatureDB built under %s; %s>, id_spec=S)" % (
+                "the default id_spec" if spec1["form"] == "none" else "another id_spec", case["history"])):
+            return None
+        if [f.id for f in src.all_features()] != srckeys:
+            ctx.violation(case, dict(detail, why="the source database's keys changed while it was copied"))
+            return None
+        expected, recs, branches = list(r["keys"]), list(order), list(r["branches"])
+        if case.get("later"):
+            r2 = MC.derive_all(spec, fmt, case["later"], r["deriver"])
+            if r2["outcome"] != "keys" or len(set(expected + r2["keys"])) != len(expected) + len(r2["keys"]):
+                ctx.skip("dbcopy: update() after the copy: derived keys collide / silent")
+                return {"branches": branches, "moved": moved}
+            if case["db"] == "file" and case.get("reopen"):
+                new.conn.close()
+                new = gffutils.FeatureDB(dbfn)
+                opened.append(new)
+            try:
+                new.update(text_of(case["later"], fmt), from_string=True, make_backup=False, **kw)
+            except Exception as ex:
+                ctx.violation(case, dict(detail, why="update() of the copy raised %r on features whose keys are all distinct (the counters go on from the "
+                                                     "copy's own count)" % (ex,), expected=r2["keys"], later=text_of(case["later"], fmt),
+                                         counters_of_the_source=srcauto))
+                return None
+            ctx.mon("update() imports")
+            ctx.mon("dbcopy: update() of the copy, numbering goes on from the copy's own count")
+            ctx.mon("dbcopy: auto-numbered keys handed out by update() of the copy", sum(1 for b in r2["branches"] if MC.is_auto(b)))
+            expected += r2["keys"]
+            recs += case["later"]
+            branches += r2["branches"]
+            if not compare(ctx, ccase, new, expected, recs, branches, r2["deriver"], "after update() of the copy"):
+                return None
+        for name, n in r["deriver"].stats.items():
+            ctx.mon(name, n)
+        ctx.mon("dbcopy: copies completed with every key as the new id_spec dictates")
+        return {"branches": branches, "moved": moved}
+    finally:
+        for d in opened:
+            try:
+                d.conn.close()
+            except Exception:
+                pass
+        for p in (srcfn, dbfn):
+            if p != ":memory:" and os.path.exists(p):
+                os.unlink(p)
+        for v in contracts.drain():
+            ctx.violation(case, v)
+
+
 def account(ctx, case, branches):
     kinds = sorted(set(branches))
     outcome = "reject" if "multi-valued->reject" in kinds else "keys"
@@ -910,6 +1294,44 @@ def run(ctx):
                  sample={"kind": "stale", "fmt": case["fmt"], "spec": case["spec"], "via": case["via"],
                          "ops": [o["op"] + ("_" + o["which"] if "which" in o else "") for o in case["ops"]],
                          "base": text_of(case["base"], case["fmt"])[:400]})
+    # explicit ids that spell an auto-numbered key: every strategy x {create_db, update()} on every shard first
+    combos = [(st, path) for st in G.AUTOCLASH_STRATEGIES for path in ("create", "update")]
+    for i in range(ctx.budget(360, 7000)):
+        st, path = combos[i % len(combos)] if i < 2 * len(combos) else (None, None)
+        case = G.gen_autoclash_case(rng, strategy=st, path=path)
+        info = execute(ctx, case)
+        if info is None:
+            continue
+        ctx.classes["autoclash: strategy=" + case["strategy"]] += 1
+        ctx.classes["autoclash: " + ("create_db + update()" if len(case["batches"]) > 1 else "create_db")] += 1
+        ctx.classes["autoclash: form=" + case["form"]] += 1
+        ctx.classes["fmt=" + case["fmt"]] += 1
+        if info["explicit_first"]:
+            ctx.mon("autoclash: explicit id placed BEFORE the auto-numbered feature it collides with", info["explicit_first"])
+        if info["auto_first"]:
+            ctx.mon("autoclash: explicit id arriving AFTER the auto-numbered feature it collides with", info["auto_first"])
+        if info["callable_auto"]:
+            ctx.mon("autoclash: the colliding key was made by a callable's 'autoincrement:X'")
+        text = "".join(text_of(b, case["fmt"]) for b in case["batches"])
+        ctx.case(("autoclash", case["fmt"], case["spec"], case["strategy"], len(case["batches"][0]), text), True,
+                 sample={"kind": "autoclash", "fmt": case["fmt"], "spec": case["spec"], "strategy": case["strategy"],
+                         "batches": [len(b) for b in case["batches"]], "text": text[:500]})
+    # create_db(data=<FeatureDB>, id_spec=S): each history on every shard first
+    for i in range(ctx.budget(280, 6000)):
+        case = G.gen_dbcopy_case(rng, history=G.DBCOPY_HISTORIES[i % len(G.DBCOPY_HISTORIES)] if i < 10 else None)
+        info = execute(ctx, case)
+        if info is None:
+            continue
+        ctx.classes["dbcopy: source history=" + case["history"]] += 1
+        ctx.classes["dbcopy: source id_spec form=" + case["sform"]] += 1
+        ctx.classes["dbcopy: form=" + case["form"]] += 1
+        ctx.classes["fmt=" + case["fmt"]] += 1
+        for b in set(info["branches"]):
+            ctx.classes["dbcopy: branch=" + b] += 1
+        text = text_of(case["base"], case["fmt"])
+        ctx.case(("dbcopy", case["fmt"], case["spec1"], case["spec"], str(case["ops"]), text, len(case["later"])), info["moved"] > 0,
+                 sample={"kind": "dbcopy", "fmt": case["fmt"], "spec1": case["spec1"], "spec": case["spec"], "history": case["history"],
+                         "text": text[:500]})
     ctx.mon("autoid contract evaluations", contracts.EVALS["autoid"])
     ctx.mon("bins.bins contract evaluations", contracts.EVALS["bins.bins"])
 
@@ -938,7 +1360,13 @@ MANIFEST = {
             "as int (FeatureNotFoundError or the feature stored under str(int)). GTF-looking (and GFF3) files are also imported "
             "with force_gff=True: under id_spec None the GFF default must apply (ID, else '<featuretype>_<n>'; gene_id / "
             "transcript_id are ordinary attributes), explicit specs mean what they say. Dict id_spec entries (and whole specs) "
-            "given as tuples of names must behave like the list of the same names, multi-valued rejection included.",
+            "given as tuples of names must behave like the list of the same names, multi-valued rejection included. Files in which an "
+            "explicit id spells the '<base>_<k>' key that an auto-numbered feature gets by the rule are imported (create_db, or explicit id "
+            "stored first and the anonymous features added by update()) under each merge strategy: 'error' must raise, the others must leave "
+            "exactly the keys / lines the rule plus the strategy give, the numbering going on without skipping and the next number absent. "
+            "Databases built under another id_spec, with deleted and added features, are handed to create_db as data under a new id_spec S: "
+            "the new keys must be those S gives for the features in the order the source iterates them, whatever they were called before; "
+            "an update() of the copy counts on from the copy's own numbers.",
     "note": "Trusted: gvmon/models/C04.py, the reference renderer, icontract. Inputs whose derived keys collide are "
             "skipped (C05 judges them).",
 }
